@@ -48,6 +48,7 @@ pub fn run(ctx: &Ctx) -> CheckResult {
             });
             if !side {
                 spaces.push(Space { cfg, alphabet: s_ops(&S_ULP), depth: d_rough, label: "S_ulp" });
+                spaces.push(Space { cfg, alphabet: s_ops(&S_NEAR), depth: d_rough + 1, label: "S_near" });
                 // scalar and bar inputs mixed on the same instance (bars: close; low for MIN; high for MAX)
                 let mixed: Vec<Op> = vec![Op::S(1.0), Op::B(Bar::hlc(3.0, -1.0, 2.0)), Op::S(-2.0), Op::B(Bar::hlc(4.0, 0.0, 0.0)), Op::S(3.0), Op::Reset];
                 spaces.push(Space { cfg, alphabet: mixed, depth: d_rough, label: "mixed scalar/bar" });
